@@ -577,6 +577,9 @@ func (e *Engine) scenario(s *State, cm *CachedModel, ob string) *Scenario {
 		}
 		sc.Nondet[en.Tag] = toGo(v)
 		sc.Order = append(sc.Order, en.Tag)
+		if os.Getenv("GOSYM_DEBUGSC") != "" {
+			fmt.Fprintf(os.Stderr, "SC %s kind=%s term=%s val=%v\n", en.Tag, en.Kind, en.T.String(), toGo(v))
+		}
 	}
 	evalStr := func(i int) (string, bool) {
 		v, ok := cm.Eval(s.W.Evals[i].T)
@@ -599,6 +602,9 @@ func (e *Engine) scenario(s *State, cm *CachedModel, ob string) *Scenario {
 		if strings.HasPrefix(en.Tag, "addr|") && en.Kind == "app" && i+1 < len(s.W.Evals) {
 			str, ok1 := evalStr(i)
 			by, ok2 := evalStr(i + 1)
+			if os.Getenv("GOSYM_DEBUGSC") != "" {
+				fmt.Fprintf(os.Stderr, "SCEVAL %s %q %v | %s %q %v\n", s.W.Evals[i].T.String(), str, ok1, s.W.Evals[i+1].T.String(), by, ok2)
+			}
 			if ok1 && ok2 && (len(by) == 20 && len(str) == 42 || len(by) == 32 && len(str) == 62) {
 				rename[str] = Bech32Encode("jkl", []byte(by))
 				// is this spelling the canonical one (the value of AccAddress.String()) in the model?
